@@ -9,8 +9,10 @@ import (
 	"strings"
 	"time"
 
+	server "Havoc/cmd/server"
 	"Havoc/pkg/handlers"
 	"Havoc/pkg/packager"
+	"Havoc/pkg/verifhook"
 
 	"golang.org/x/crypto/sha3"
 
@@ -34,6 +36,7 @@ type opsState struct {
 	taken   map[string]int
 	evNorm  []string
 	swaps   map[string]string
+	race    string // label of the line injected into the replay of the current step
 }
 
 // canon puts the two frames of a cut/chat race into the order the model uses.
@@ -52,6 +55,20 @@ func (s *opsState) absorb(op, c, num string) {
 		s.taken[cl] = len(all)
 		if op == "CutChat" {
 			delta = canon(delta, bye, chat)
+		}
+		if op == "AuthRace" && cl == c && s.race != "" {
+			// the live line may overtake the replay anywhere; exactly once is what matters. Canonical place: after the first replay frame.
+			cnt, rest := 0, []string{}
+			for _, f := range delta {
+				if f == s.race {
+					cnt++
+				} else {
+					rest = append(rest, f)
+				}
+			}
+			if cnt == 1 && len(rest) >= 2 && rest[0] == "authok" {
+				delta = append(append(append([]string{}, rest[:2]...), s.race), rest[2:]...)
+			}
 		}
 		s.norm[cl] = append(s.norm[cl], delta...)
 	}
@@ -296,7 +313,41 @@ func RunOperators(behs [][]Step, tr *Trace, env Env, sum *Summary) {
 					for i := 0; i < 400 && w.ClientCount() == before; i++ {
 						time.Sleep(5 * time.Millisecond)
 					}
+				case "AuthRace":
+					// the same correct first message, but a chat line is recorded and broadcast from inside the replay
+					num := st.Str("y")
+					frames := 0
+					verifhook.Hook = func(name string) {
+						if name == "ops.replay.frame" {
+							frames++
+							if frames == 2 {
+								pk := packager.Package{}
+								pk.Head.Event, pk.Head.User, pk.Body.SubEvent = packager.Type.Chat.Type, "server", packager.Type.Chat.NewMessage
+								pk.Body.Info = map[string]any{"User": "server", "Message": "chat" + num}
+								w.TS.EventAppend(pk)
+								w.TS.EventBroadcast("", pk)
+							}
+						}
+					}
+					s.cl[c].Send(authMessage(c, "good"))
+					s.waitFor(c, func(l []string) bool { return has(l, "authok") && has(l, "chat"+num) })
+					s.settle(60 * time.Millisecond)
+					verifhook.Hook = nil
+					s.race = "chat" + num
 				case "Auth":
+					if x == "impersonate" {
+						victim := opUsers[c][0]
+						w.TS.Clients.Range(func(k, v any) bool {
+							if cl := v.(*server.Client); cl.Authenticated && cl.Username != "" && cl.Username != victim {
+								victim = cl.Username
+								return false
+							}
+							return true
+						})
+						s.cl[c].Send(fmt.Sprintf(`{"Head":{"Event":%d,"User":"%s"},"Body":{"SubEvent":%d,"Info":{"User":"%s","Password":"%s"}}}`, packager.Type.InitConnection.Type, victim, packager.Type.InitConnection.OAuthRequest, victim, sha3hex("guess")))
+						s.waitFor(c, func(l []string) bool { return has(l, "authok") || has(l, "autherr") })
+						break
+					}
 					s.cl[c].Send(authMessage(c, x))
 					s.waitFor(c, func(l []string) bool { return has(l, "authok") || has(l, "autherr") })
 				case "FollowUp":
@@ -352,6 +403,7 @@ func RunOperators(behs [][]Step, tr *Trace, env Env, sum *Summary) {
 					fail("panic", firstLines(p, 14))
 				}
 				s.absorb(op, c, st.Str("y"))
+				s.race = ""
 				ev := map[string]any{"ev": op, "c": c, "x": x, "res": map[string]any{"done": done}, "st": s.project()}
 				tr.Emit(ev)
 			}
